@@ -26,6 +26,11 @@ pub fn check_case(c: &NetCase, obs: &mut Obs) -> Result<(), String> {
         let scheme = r.url.split(':').next().unwrap_or("").to_ascii_lowercase();
         for p in hits.iter().filter(|p| p.f.is_removeparam()) {
             let opts = p.line.trim().rsplit_once('$').map(|x| x.1).unwrap_or("");
+            // the parameter name is the text after `removeparam=` as written
+            let written: Vec<&str> = opts.split(',').filter_map(|o| o.strip_prefix("removeparam=")).collect();
+            if written.len() == 1 && p.f.modifier_option.as_deref() != Some(written[0]) {
+                return Err(format!("rule {:?}: parameter name as written {:?}, parsed as {:?}", p.line, written[0], p.f.modifier_option));
+            }
             if opts.split(',').any(|o| o.starts_with('~') && crate::model::opts::type_option_class(&o[1..]).is_some()) {
                 continue; // negated types: covered by C03's option model
             }
